@@ -2104,7 +2104,8 @@ class Node(SimComponent, ABC):
 
         to the red agent.
         """
-        self.node_scan_countdown = self.config.node_scan_duration
+        # apply_timestep runs the scan on the tick the countdown reaches 0: a duration of 0 completes on the next tick
+        self.node_scan_countdown = max(self.config.node_scan_duration, 1)
         return True
 
     def reveal_to_red(self) -> bool:
@@ -2120,7 +2121,7 @@ class Node(SimComponent, ABC):
 
         `revealed_to_red` to `True`.
         """
-        self.red_scan_countdown = self.config.node_scan_duration
+        self.red_scan_countdown = max(self.config.node_scan_duration, 1)
         return True
 
     def power_on(self) -> bool:
